@@ -8,6 +8,7 @@ import ACModel.Driver.Pipeline
 import ACModel.Driver.Multi
 import ACModel.Driver.History
 import ACModel.Driver.Measures
+import ACModel.Driver.Validate
 /-
   acdriver: JSON-lines driver around the executable model and the specification predicates.
   One request per line on stdin, one response per line on stdout.
@@ -43,6 +44,7 @@ def dispatch (j : Json) : R Json := do
   | "multi.assemble" => DriverMulti.assembleReq j
   | "judge.history" => DriverHist.judge j
   | "measure.exact" => DriverMeasures.exact j
+  | "validate.fit" => DriverValidate.fit j
   | o => throw s!"unknown request {o}"
 
 def handleLine (line : String) : String :=
